@@ -60,13 +60,13 @@ type scoped struct {
 	scope string
 }
 
-func (s *scoped) Trace(msg string)                  { s.l.Calls.Add(1) }
-func (s *scoped) Tracef(string, ...any)             { s.l.Calls.Add(1) }
-func (s *scoped) Debug(msg string)                  { s.l.add("D", s.scope, msg) }
-func (s *scoped) Debugf(f string, a ...any)         { s.l.add("D", s.scope, fmt.Sprintf(f, a...)) }
-func (s *scoped) Info(msg string)                   { s.l.add("I", s.scope, msg) }
-func (s *scoped) Infof(f string, a ...any)          { s.l.add("I", s.scope, fmt.Sprintf(f, a...)) }
-func (s *scoped) Warn(msg string)                   { s.l.add("W", s.scope, msg) }
-func (s *scoped) Warnf(f string, a ...any)          { s.l.add("W", s.scope, fmt.Sprintf(f, a...)) }
-func (s *scoped) Error(msg string)                  { s.l.add("E", s.scope, msg) }
-func (s *scoped) Errorf(f string, a ...any)         { s.l.add("E", s.scope, fmt.Sprintf(f, a...)) }
+func (s *scoped) Trace(msg string)          { s.l.Calls.Add(1) }
+func (s *scoped) Tracef(string, ...any)     { s.l.Calls.Add(1) }
+func (s *scoped) Debug(msg string)          { s.l.add("D", s.scope, msg) }
+func (s *scoped) Debugf(f string, a ...any) { s.l.add("D", s.scope, fmt.Sprintf(f, a...)) }
+func (s *scoped) Info(msg string)           { s.l.add("I", s.scope, msg) }
+func (s *scoped) Infof(f string, a ...any)  { s.l.add("I", s.scope, fmt.Sprintf(f, a...)) }
+func (s *scoped) Warn(msg string)           { s.l.add("W", s.scope, msg) }
+func (s *scoped) Warnf(f string, a ...any)  { s.l.add("W", s.scope, fmt.Sprintf(f, a...)) }
+func (s *scoped) Error(msg string)          { s.l.add("E", s.scope, msg) }
+func (s *scoped) Errorf(f string, a ...any) { s.l.add("E", s.scope, fmt.Sprintf(f, a...)) }
